@@ -763,6 +763,97 @@ func TestVerifQuota(t *testing.T) {
 				}
 			}
 		}
+	case "directed":
+		// Directed family: every depth-3 shape  P(limit LP) > [unlimited] > G(limit M) > [unlimited] > leaf(limit C)
+		// plus a sibling S of G that leaves P nearly (or exactly) full, for memory, threads and CPU; then limit raises
+		// of the MID-LEVEL group G (both update paths) over every value from M to LP+1 -- i.e. across the
+		// boundaries room-1, room, room+1, room+C, room+C+1 of P's remaining room -- and raises of the leaf across
+		// G's limit.  This is the history that exercises "subtract the group's own reservation
+		// max(limit, reservedByChildren)" for a group that has BOTH an own limit and reserving sub-groups.
+		lps := vqInts("VERIF_DIR_LPS", []int{5})
+		allS := vqEnvInt("VERIF_DIR_ALLS", 0) != 0
+		lim := func(res string, v int, other bool) vqReq {
+			q := vqReq{Mem: vqOmit, Thr: vqOmit, Cnt: vqOmit, Pct: vqOmit, Cpus: []int{}, Other: other}
+			switch res {
+			case "mem":
+				q.Mem = v
+			case "thr":
+				q.Thr = v
+			case "cpu":
+				q.Cnt, q.Pct = 1, 10*v
+			}
+			return q
+		}
+		unlimited := vqReq{Mem: vqOmit, Thr: vqOmit, Cnt: vqOmit, Pct: vqOmit, Cpus: []int{}, Other: true}
+		for _, res := range []string{"mem", "thr", "cpu"} {
+			for shape := 0; shape < 4; shape++ {
+				for _, lp := range lps {
+					for m := 1; m <= 3 && m < lp; m++ {
+						for c := 1; c <= m; c++ {
+							for sib := 0; sib <= lp-m; sib++ {
+								if !allS && sib < lp-m-1 {
+									continue
+								}
+								cs := fmt.Sprintf("d.%s.s%d.P%d.G%d.L%d.S%d", res, shape, lp, m, c, sib)
+								var base []vqOp
+								add := func(parent int, q vqReq) int {
+									base = append(base, vqOp{Op: "new", G: parent, Path: "direct", Req: q})
+									return len(base)
+								}
+								pID := add(0, lim(res, lp, false))
+								above := pID
+								if shape&1 != 0 {
+									above = add(pID, unlimited)
+								}
+								gID := add(above, lim(res, m, false))
+								below := gID
+								if shape&2 != 0 {
+									below = add(gID, unlimited)
+								}
+								leafID := add(below, lim(res, c, false))
+								if sib > 0 {
+									add(pID, lim(res, sib, false))
+								}
+								r.reset(cs, d)
+								f := &vqForest{}
+								nTraces++
+								okBase := true
+								for i, op := range base {
+									ev := r.apply(f, cs, i, op)
+									r.emit(ev)
+									if !ev.Ok || !ev.Fits {
+										okBase = false // reported through the event itself / the trace validation
+										break
+									}
+								}
+								if !okBase {
+									continue
+								}
+								r.emit(vqEvent{Ev: "Mark", Case: cs, St: f.project()})
+								i := len(base)
+								try := func(op vqOp) {
+									ev := r.apply(f, cs, i, op)
+									i++
+									r.emit(ev)
+									if ev.Ok || !ev.Unch {
+										f = r.rebuild(base)
+										r.emit(vqEvent{Ev: "Restore", Case: cs, St: f.project()})
+									}
+								}
+								for _, path := range []string{"direct", "merged"} {
+									for v := m; v <= lp+1; v++ {
+										try(vqOp{Op: "update", G: gID, Path: path, Req: lim(res, v, false)})
+									}
+								}
+								for v := c; v <= m+1; v++ {
+									try(vqOp{Op: "update", G: leafID, Path: "merged", Req: lim(res, v, false)})
+								}
+							}
+						}
+					}
+				}
+			}
+		}
 	case "replay":
 		in, err := os.Open(os.Getenv("VERIF_OPS"))
 		if err != nil {
